@@ -615,15 +615,23 @@ class C17(object):
 
     def profile(self, seed, tier):
         K = Keyed(seed)
-        return {"name": "C17", "enabled": ["C17"], "gates": dict(join_partial=False, join_in_loop=False),
-                "faults": dict(p_fail=K.choice([0.15, 0.3, 0.3, 0.5], "pf17"), poll_skip=0.05, restart=0.03),
-                "world": dict(kf_props=kf_props()), "forbid_features": ["join_partial", "join_in_loop"]}
+        p = {"name": "C17", "enabled": ["C17"], "gates": dict(join_partial=False, join_in_loop=False),
+             "faults": dict(p_fail=K.choice([0.15, 0.3, 0.3, 0.5], "pf17"), poll_skip=0.05, restart=0.03),
+             "world": dict(kf_props=kf_props()), "forbid_features": ["join_partial", "join_in_loop"]}
+        if K.u("profile", "split17") < 0.3:
+            # a share of the budget on multi-referenced tasks: the same task executed under several
+            # routes, failing on one of them, is where a rerun can disturb what completed elsewhere
+            p["require_features"] = ["split"]
+            p["force_gates"] = {"split": True, "fork": True, "loop": False, "publish": True}
+            p["size"] = [5, 6, 7, 8, 10]
+            p["plans"] = ["default", "explicit_failed"]
+        return p
 
     def evaluate(self, seed, tier):
         profile = self.profile(seed, tier)
         K = Keyed(seed)
         prog = driver.make_program(K, profile)
-        plan = K.choice(self.PLANS, "ops", "plan")
+        plan = K.choice(profile.get("plans") or self.PLANS, "ops", "plan")
         sm = RerunScheduler(seed, dict(profile, prog=prog), plan)
         res = {"outcome": "ok", "stats": sm.stats, "final": None, "nontrivial": False, "sig": None}
         try:
@@ -651,7 +659,7 @@ class C17(object):
         # convergence twin
         forced = sm.forced_after or set()
         if plan in ("default", "explicit_failed") and sm.cause_clean and forced and wm.status in TERMINAL_WF \
-                and not wm.retry_cut \
+                and not wm.retry_cut and not any(wm.ledger.retry_policy(t) for t in forced) \
                 and not any(lang.in_cycle(prog, t) for t in forced):
             sk = RerunScheduler(seed, dict(profile, prog=prog), "none", forced_all=forced)
             try:
